@@ -108,6 +108,9 @@ MUTANTS = [
     ("conv-unwrap-second-digit-untested", "C06", "R-CONV-UNWRAP", "escape_string_character", "crates/parser/src/parser.rs",
      "                    Some(c2) if c2.is_ascii_hexdigit() => {",
      "                    Some(c2) if c1.is_ascii_hexdigit() => {"),
+    ("try-exit-continue-forgets-try-end", "C04", "R-TRY-EXIT", "compile_node", "crates/bytecode/src/compiler.rs",
+     "                    self.compile_try_ends_for_loop_exit();\n                    self.push_jump_back_op(JumpBack, &[], loop_start_ip)?;",
+     "                    self.push_jump_back_op(JumpBack, &[], loop_start_ip)?;"),
     # ---- R-BUILDER-BAL
     ("builder-string-finish-conditional", "C05", "R-BUILDER-BAL", "compile_string", "crates/bytecode/src/compiler.rs",
      "                        if let Some(result_register) = result.register {\n                            self.push_op(Op::StringFinish, &[result_register]);\n                        }",
